@@ -426,9 +426,10 @@ class FTPProcessorSession(BaseProcessorSession):
 
             try:
                 os.symlink(link_target, symlink_path)
-            except OSError as error:
+            except (OSError, ValueError, TypeError) as error:
                 # The name may be listed twice or exist from an earlier
-                # run: not a reason to end the crawl.
+                # run, hold a NUL byte, or the listing may give no
+                # target: not a reason to end the crawl.
                 _logger.warning(
                     _('Could not create symbolic link {symlink_path}: '
                       '{error}.'),
